@@ -6,6 +6,7 @@ import vlib
 import syscorr
 import sysgen
 import sysmon
+import xcheck
 
 CFG = {
     # property: (monitor, projection fields compared between implementation and model)
@@ -74,6 +75,7 @@ def failure_key(f):
 def run_cases(pid, cases, tag):
     mon, fields = CFG[pid]
     results, st = syscorr.run_both(cases, tag)
+    LAST["raw"], LAST["casefile"] = results, st["casefile"]
     xmap = {}
     try:
         for l in open(st["casefile"] + ".orc"):
@@ -93,6 +95,7 @@ def run_cases(pid, cases, tag):
 
 
 XMAP = {}
+LAST = {}
 
 
 def shrink(pid, lines, pred_key, kind, budget=10):
@@ -201,6 +204,8 @@ def run(res, tier, seed, pid):
     stats["corpus_cases"] = len(corpus)
     out, st = run_cases(pid, cases, pid)
     mon, fields = CFG[pid]
+    # cross-check of extraction + OCaml driver against Coq's own evaluation, on a sample (generated histories, skipping the corpus)
+    xcheck.run(res, LAST["raw"][len(corpus):], LAST["casefile"], 12 if tier == "quick" else 200)
     nops = sum(len(l) for _, l in cases)
     mism = [(cid, lines, mm) for cid, lines, mm, _ in out if mm]
     fails = [(cid, lines, f) for cid, lines, _, fs in out for f in fs]
